@@ -83,3 +83,35 @@ fn c13_2c_eq_silence() {
     kani::cover!(true);
     core::mem::forget(info); core::mem::forget(f);
 }
+
+// @ob id=C14.2c strength=bounded tier=quick timeout=1500 bound="low and high shelf, frequency = sample_rate/4 (tan instantiated as 1.0), linear gain A instantiated as 4.0 (10^(24/40) within the EXP10 axioms; sqrt A = 2), q = 2/3 (k = 3/2); grid state and input" axioms=TAN,EXP10 fn=effect/eq_filter.rs::{<EqFilter as Effect>::process,Coefficients::calculate}
+// @req one frame, arbitrary grid state and input
+// @ens SvfLinearTrapOptimised2 shelves: low shelf g = tan/sqrt(A) = 1/2, (a1,a2,a3) = (1/2,1/4,1/8), output = x + k(A-1) v1 + (A^2-1) v2 = x + 4.5 v1 + 15 v2; high shelf g = tan*sqrt(A) = 2, (a1,a2,a3) = (1/8,1/4,1/2), output = A^2 x + k(1-A)A v1 + (1-A^2) v2 = 16 x - 18 v1 - 15 v2
+#[kani::proof]
+#[kani::unwind(8)]
+#[kani::stub(f64::tan, tan64_model)]
+#[kani::stub(f64::powf, powf64_model)]
+fn c14_2c_eq_shelf_coefficients() {
+    let g = tan64_model(core::f64::consts::PI * 0.25);
+    kani::assume(g == 1.0);
+    let a = powf64_model(10.0, 24.0f32 as f64 / 40.0);
+    kani::assume(a == 4.0);
+    let high: bool = kani::any();
+    let mut f = mk(if high { EqFilterKind::HighShelf } else { EqFilterKind::LowShelf }, 8192.0, 24.0, 2.0 / 3.0);
+    let (s1, s2, x) = (grid_sample(), grid_sample(), grid_sample());
+    f.ic1eq = Frame::new(s1, 0.0);
+    f.ic2eq = Frame::new(s2, 0.0);
+    let mut buf = [Frame::new(x, 0.0)];
+    let info = empty_info();
+    f.process(&mut buf, DT, &info);
+    let (a1, a2, a3) = if high { (0.125f32, 0.25f32, 0.5f32) } else { (0.5f32, 0.25f32, 0.125f32) };
+    let v3 = x - s2;
+    let v1 = s1 * a1 + v3 * a2;
+    let v2 = s2 + s1 * a2 + v3 * a3;
+    assert!(f.ic1eq.left == v1 * 2.0 - s1 && f.ic2eq.left == v2 * 2.0 - s2, "C14.2c: shelf integrator update with the cited g");
+    let want = if high { x * 16.0 + v1 * -18.0 + v2 * -15.0 } else { x + v1 * 4.5 + v2 * 15.0 };
+    assert!(buf[0].left == want, "C14.2c: shelf mix coefficients m0, m1, m2 of the cited design");
+    kani::cover!(high && v1 != 0.0);
+    kani::cover!(!high);
+    core::mem::forget(info); core::mem::forget(f);
+}
